@@ -69,6 +69,12 @@ Frags == <<
   Frag("E", <<"a", "?", "(", "b", ")", ":", "c", "?", "d", ":", "e">>, <<"a", "?", "(", "b", ")", ":", "c">>, "nested ternary"),
   Frag("E", <<"a", "?", "-", "b", ":", "c", "?", "d", ":", "e">>, <<"a", "?", "-", "b", ":", "c">>, "nested ternary"),
   Frag("E", <<"a", "?", "[", "b", "]", ":", "c", "?", "d", ":", "e">>, <<"a", "?", "[", "b", "]", ":", "c">>, "nested ternary"),
+  \* the inner ternary behind another construct of the arm: an argument, a bracketed operand, an index, an element
+  Frag("E", <<"a", "?", "t", "(", "b", "?", "c", ":", "d", ",", "e", ")", ":", "c">>, <<"a", "?", "t", "(", "b", ",", "e", ")", ":", "c">>, "nested ternary"),
+  Frag("E", <<"a", "?", "(", "b", "?", "c", ":", "d", ")", "+", "1", ":", "e">>, <<"a", "?", "(", "b", ")", "+", "1", ":", "e">>, "nested ternary"),
+  Frag("E", <<"a", "?", "x", "[", "b", "?", "0", ":", "1", "]", ":", "e">>, <<"a", "?", "x", "[", "b", "]", ":", "e">>, "nested ternary"),
+  Frag("E", <<"a", "?", "[", "b", "?", "c", ":", "d", "]", ":", "e">>, <<"a", "?", "[", "b", "]", ":", "e">>, "nested ternary"),
+  Frag("E", <<"a", "?", "b", ":", "t", "(", "c", "?", "d", ":", "e", ")">>, <<"a", "?", "b", ":", "t", "(", "c", ")">>, "nested ternary"),
   Frag("S", <<"x", "=", "1", "#", "2", ";">>, <<"x", "=", "1", "+", "2", ";">>, "illegal character"),
   Frag("S", <<"x", "=", "1", "@", ";">>, <<"x", "=", "1", ";">>, "illegal character"),
   Frag("S", <<"x", "=", "1", ";", "^">>, <<"x", "=", "1", ";">>, "illegal character"),
